@@ -7,7 +7,7 @@ import (
 	eventbus "github.com/jilio/ebu"
 )
 
-//verif:entry property=C12 tier=both bounds="SQLite store (events + subscription offsets) through the database/sql model (incl. its connection-pool limit), file-backed or :memory:, AUTOINCREMENT base position p in [0,200]: every history of H steps out of {publish subscribed type, publish other type, SubscribeWithReplay (once per bus), restart}; no fault; drain restart at the end; exactly-once and log order" cover="drained" H_quick=4 H_thorough=5
+//verif:entry property=C12 tier=both bounds="SQLite store (events + subscription offsets) through the database/sql model (incl. its connection-pool limit), file-backed or :memory:, AUTOINCREMENT base position p in [0,200]: every history of H steps out of {publish subscribed type, publish other type, SubscribeWithReplay for one of two ids (once per id and bus), restart}; no fault; drain restart at the end and one more restart; exactly-once and log order per id" cover="drained" H_quick=4 H_thorough=5
 func harnessC12SqliteHistory() {
 	H := vParam("H", 4)
 	path := "/tmp/gosx-c12-a.db"
@@ -17,62 +17,74 @@ func harnessC12SqliteHistory() {
 	st := mustNew(path)
 	vsqlSetBase(st, vInt(0, 200))
 	type del struct{ n, run int }
-	var dels []del
+	ids := [2]string{"sub", "sub-b"}
+	var dels [2][]del
 	run := 0
 	var bus *eventbus.EventBus
-	subd := false
+	subd := [2]bool{}
 	restart := func() {
 		bus = eventbus.New(eventbus.WithStore(st))
 		run++
-		subd = false
+		subd = [2]bool{}
 	}
-	subscribe := func() error {
-		subd = true
-		return eventbus.SubscribeWithReplay(bg, bus, "sub", func(e evS) { dels = append(dels, del{e.N, run}) })
+	subscribe := func(i int) error {
+		subd[i] = true
+		return eventbus.SubscribeWithReplay(bg, bus, ids[i], func(e evS) { dels[i] = append(dels[i], del{e.N, run}) })
 	}
 	restart()
 	seq := 0
 	var published []int
 	for h := 0; h < H; h++ {
-		switch vPick(4) {
+		switch vPick(5) {
 		case 0:
 			seq++
 			eventbus.Publish(bus, evS{N: seq})
 			published = append(published, seq)
 		case 1:
 			eventbus.Publish(bus, evT{N: 1})
-		case 2:
-			if !subd {
-				vAssert(subscribe() == nil, "subscribe-ok")
+		case 2, 4:
+			i := 0
+			if vPick(2) == 1 {
+				i = 1 // a second subscription id on the same store progresses independently
+			}
+			if !subd[i] {
+				vAssert(subscribe(i) == nil, "subscribe-ok")
 			}
 		case 3:
 			restart()
 		}
 	}
 	restart()
-	vAssert(subscribe() == nil, "drain-subscribe-ok")
-	for _, n := range published {
-		c := 0
-		for _, d := range dels {
-			if d.n == n {
-				c++
+	vAssert(subscribe(0) == nil && subscribe(1) == nil, "drain-subscribe-ok")
+	for i := 0; i < 2; i++ {
+		for _, n := range published {
+			c := 0
+			for _, d := range dels[i] {
+				if d.n == n {
+					c++
+				}
+			}
+			vAssert(c >= 1, "no-persisted-event-lost")
+			vAssert(c == 1, "exactly-once-without-faults")
+		}
+		for a := 0; a < len(dels[i]); a++ {
+			for b := a + 1; b < len(dels[i]); b++ {
+				if dels[i][a].run == dels[i][b].run {
+					vAssert(dels[i][a].n < dels[i][b].n, "log-order-within-a-run")
+				}
 			}
 		}
-		vAssert(c >= 1, "no-persisted-event-lost")
-		vAssert(c == 1, "exactly-once-without-faults")
-	}
-	for a := 0; a < len(dels); a++ {
-		for b := a + 1; b < len(dels); b++ {
-			if dels[a].run == dels[b].run {
-				vAssert(dels[a].n < dels[b].n, "log-order-within-a-run")
-			}
+		off, err := st.LoadOffset(bg, ids[i])
+		vAssert(err == nil, "load-ok")
+		if len(published) > 0 {
+			vAssert(off != eventbus.OffsetOldest, "position-saved")
 		}
 	}
-	off, err := st.LoadOffset(bg, "sub")
-	vAssert(err == nil, "load-ok")
-	if len(published) > 0 {
-		vAssert(off != eventbus.OffsetOldest, "position-saved")
-	}
+	// a further restart finds nothing left to deliver for either id
+	before := len(dels[0]) + len(dels[1])
+	restart()
+	vAssert(subscribe(0) == nil && subscribe(1) == nil, "drain-subscribe-ok")
+	vAssert(len(dels[0])+len(dels[1]) == before, "exactly-once-without-faults")
 	vCover("drained")
 }
 
